@@ -57,11 +57,10 @@ pub(crate) fn set_nth(mut args: ArgumentResult, visitor: &mut Visitor) -> SassRe
     args.max_args(3)?;
     let (mut list, sep, brackets) = match args.get_err(0, "list")? {
         Value::List(v, sep, b) => (v, sep, b),
-        Value::ArgList(v) => (
-            v.elems.into_iter().collect(),
-            ListSeparator::Comma,
-            Brackets::None,
-        ),
+        Value::ArgList(v) => {
+            let sep = v.separator;
+            (v.elems.into_iter().collect(), sep, Brackets::None)
+        }
         Value::Map(m) => (m.as_list(), ListSeparator::Comma, Brackets::None),
         v => (vec![v], ListSeparator::Undecided, Brackets::None),
     };
